@@ -1,4 +1,4 @@
-// mp.scope: drive the real MsgPack read scopes (root/object/array) with a request history.
+// mp.scope: drive the real MsgPack read scopes (root/object/array) with a request history, then Finalize().
 // The document is given as TOKENS and encoded here by an independent mini-encoder.
 #include "harness.h"
 #include <sstream>
@@ -197,6 +197,8 @@ Register s1("mp.scope", [](const Tokens& t) -> std::string {
 			else if (r.rfind("n=", 0) == 0) run.scalar(*root, r.substr(2));
 			else throw BadOp("req at root");
 		}
+		// what LoadObject() does after the object has been loaded: an error deferred by a scope destructor surfaces here
+		root->Finalize();
 	}
 	catch (const BadOp&) { throw; }
 	catch (const std::exception& e) { run.out.push_back("E" + describeException(e)); }
@@ -205,9 +207,51 @@ Register s1("mp.scope", [](const Tokens& t) -> std::string {
 	return res.empty() ? "-" : res;
 });
 
+// mp.tuple … obj: the real LoadObject<MsgPackArchive> into struct { std::tuple<int64,string,int64,bool> t; int64 z; } — the tuple's
+// array scope lives inside an object scope and is closed wherever the tuple stops; "z" is requested behind it.
+struct TupHolder {
+	std::tuple<int64_t, std::string, int64_t, bool> t;
+	int64_t z = 0;
+	template <class TArchive> void Serialize(TArchive& archive) { archive << KeyValue("t", t) << KeyValue("z", z); }
+};
+
+std::string tupleInObject(const Tokens& t) {
+	SerializationOptions options;
+	options.mismatchedTypesPolicy = t[2] == "skip" ? MismatchedTypesPolicy::Skip : MismatchedTypesPolicy::ThrowError;
+	options.overflowNumberPolicy = OverflowNumberPolicy::ThrowError;
+	std::string doc;
+	{
+		std::istringstream is(t[3]);
+		std::string tok;
+		while (std::getline(is, tok, ',')) encodeTok(doc, tok);
+	}
+	TupHolder a{ { 0x5A5A5A5A5ALL, "\x01prior-A", -0x5A5A5A5A5ALL, false }, 0x1111111111LL };
+	TupHolder b{ { 0x3C3C3C3C3CLL, "\x02prior-B", -0x3C3C3C3C3CLL, true }, 0x2222222222LL };
+	try {
+		if (t[1] == "mem") { BitSerializer::LoadObject<BitSerializer::MsgPack::MsgPackArchive>(a, doc, options); BitSerializer::LoadObject<BitSerializer::MsgPack::MsgPackArchive>(b, doc, options); }
+		else {
+			std::istringstream s1(doc), s2(doc);
+			BitSerializer::LoadObject<BitSerializer::MsgPack::MsgPackArchive>(a, s1, options); BitSerializer::LoadObject<BitSerializer::MsgPack::MsgPackArchive>(b, s2, options);
+		}
+	}
+	catch (const std::exception& e) { return "E" + describeException(e); }
+	std::string res;
+	res += std::get<0>(a.t) == std::get<0>(b.t) ? "Ti" + std::to_string(std::get<0>(a.t)) : "F";
+	res += ";";
+	res += std::get<1>(a.t) == std::get<1>(b.t) ? "Ts" + hexBytes(std::get<1>(a.t)) : "F";
+	res += ";";
+	res += std::get<2>(a.t) == std::get<2>(b.t) ? "Ti" + std::to_string(std::get<2>(a.t)) : "F";
+	res += ";";
+	res += std::get<3>(a.t) == std::get<3>(b.t) ? (std::get<3>(a.t) ? "Tt" : "Tf") : "F";
+	res += ";";
+	res += a.z == b.z ? "Ti" + std::to_string(a.z) : "F";
+	return res;
+}
+
 // mp.tuple: the real LoadObject<MsgPackArchive> into std::tuple<int64,string,int64,bool> (types/std/tuple.h).
 // Loaded twice with two different sets of prior values: an element counts as loaded iff both runs end with the same value.
 Register s2("mp.tuple", [](const Tokens& t) -> std::string {
+	if (t.size() == 5 && t[4] == "obj") return tupleInObject(t);
 	if (t.size() != 4) throw BadOp("arity");
 	SerializationOptions options;
 	options.mismatchedTypesPolicy = t[2] == "skip" ? MismatchedTypesPolicy::Skip : MismatchedTypesPolicy::ThrowError;
